@@ -63,8 +63,8 @@ def execSetOp (st : DState) (env : Env) (name : String) (args : List String) (ot
   | "into_iter", [k] => no <| resOut (Set.intoIter cfg env (nat! k) w) elems w
   | "drain_fold", [k] => no <| resOut (Set.drain cfg (foldEnv env (nat! k) w) (if nat! k = 0 then w.t.items else nat! k) false w) elems w
   | "into_iter_fold", [k] => no <| resOut (Set.intoIter cfg (foldEnv env (nat! k) w) (if nat! k = 0 then w.t.items else nat! k) w) elems w
-  | "iter", p :: _ =>
-    match Map.iterObserve cfg w.t (nat! p) with
+  | "iter", p :: rest =>
+    match iterObserveW cfg w.t (match rest with | _ => .setIter) (nat! p) with
     | .error f => ({ ret := s!"FAULT({f})", w := w }, true, none)
     | .ok (pre, folded, rest, hints) =>
       ({ ret := s!"pre={fmtNats pre} fold={fmtNats folded} rest={fmtNats rest} sh={fmtNats hints}", w := w }, false, none)
